@@ -538,6 +538,8 @@ def nontrivial(stream, case):
     return (stream, tuple(case["events"]), tuple(sorted(case["opt"].items())))
 
 
+_BUILDS = [0]
+
 def build(chk, opt):
     from yowsup.layers import YowParallelLayer
     from yowsup.layers.auth import YowAuthenticationProtocolLayer
@@ -554,9 +556,18 @@ def build(chk, opt):
     near, top = Probe("near", forward=True), RaisingTop("top")
     prot = YowStackBuilder.getProtocolLayers()
     iface = YowInterfaceLayer()
+    # another client of the same process, with the opposite options on ITS stack (options belong to a stack: nothing set there is in force here)
+    nb = YowStack((Probe("neighbour", forward=True),), reversed=False)
+    nb.setProp(YowInterfaceLayer.PROP_RECONNECT_ON_STREAM_ERR, not bool(opt["reconnect"]))
+    nb.setProp(YowAuthenticationProtocolLayer.PROP_PASSIVE, not bool(opt["passive"]))
     stack = YowStack((YowNetworkLayer, near, YowParallelLayer(prot), iface, top), reversed=False)
-    stack.setProp(YowInterfaceLayer.PROP_RECONNECT_ON_STREAM_ERR, bool(opt["reconnect"]))
-    stack.setProp(YowAuthenticationProtocolLayer.PROP_PASSIVE, bool(opt["passive"]))
+    # an option at its documented default is left unset on every other build (reconnect defaults to on, passive to off)
+    _BUILDS[0] += 1
+    explicit = _BUILDS[0] % 2 == 0
+    if explicit or not opt["reconnect"]:
+        stack.setProp(YowInterfaceLayer.PROP_RECONNECT_ON_STREAM_ERR, bool(opt["reconnect"]))
+    if explicit or opt["passive"]:
+        stack.setProp(YowAuthenticationProtocolLayer.PROP_PASSIVE, bool(opt["passive"]))
     stack.setProp(YowIqProtocolLayer.PROP_PING_INTERVAL, 1)
     stack.setProp(YowNetworkLayer.PROP_ENDPOINT, ("e1.whatsapp.net", 443))
     return stack, near, iface, top
